@@ -43,7 +43,7 @@ func (s Scenario) String() string {
 }
 
 // BadKinds are the ways a block is made invalid.
-var BadKinds = []string{"root", "rcpt", "txroot", "badtx", "sign"}
+var BadKinds = []string{"root", "rcpt", "txroot", "badtx", "sign", "height"}
 
 // Trees enumerates one representative per isomorphism class of rooted trees
 // with 1..m non-root nodes and at most maxLeaves leaves.
@@ -234,6 +234,10 @@ func Build(net nk.Net, sc Scenario) (*Tree, error) {
 			nk.Resign(blk, i%net.NBP)
 		case "txroot":
 			blk.Header.TxsRootHash = flip(orDigest(blk.Header.TxsRootHash))
+			nk.Resign(blk, i%net.NBP)
+		case "height":
+			// the header claims a block number one above parent+1 (everything else is honest)
+			blk.Header.BlockNo++
 			nk.Resign(blk, i%net.NBP)
 		case "sign":
 			blk.Header.Sign = flip(blk.Header.Sign)
